@@ -21,6 +21,10 @@ def cases(tier, seed, PROP):
         for t in ['zone', 'equipment', 'long_name', 'parameter']:
             yield {'stratum': 'many-objects', 'index': i, 'kind': 'many', 'type': t, 'n': n}
             i += 1
+    if PROP in ('C04', 'C07'):
+        # many objects of ONE name in one set: copy numbers up to 255 (one byte, not a variable-length count)
+        for k, n in enumerate([129, 130, 256] if tier == 'quick' else [2, 127, 128, 129, 130, 200, 255, 256]):
+            yield {'stratum': 'many-same-named', 'index': k, 'kind': 'same-named', 'n': n}
     for k in range(250 if tier == 'quick' else 6000):
         yield {'stratum': 'random', 'index': k, 'kind': 'random'}
     if PROP in ('C07', 'C09'):
@@ -106,6 +110,24 @@ def _build_spec(case, PROP, r):
             sp['ops'].append({'op': 'comment', 'name': 'CM-NA', 'attrs': {'text': ['ascii', txt]}})
         else:
             sp['ops'].append({'op': 'zone', 'name': 'Z-NA', 'set_name': 'SET-' + txt, 'attrs': {}})
+        return sp
+    if k == 'same-named':
+        n = case['n']
+        sp = gen.minimal(r.choice([512, 8192]))
+        sp['write'] = {'output_chunk_size': 2 ** 16}
+        t = r.choice(['zone', 'zone', 'axis', 'long_name', 'no_format'])
+        first = len(sp['ops'])
+        for j in range(n):
+            sp['ops'].append({'op': t, 'name': 'SAME', 'attrs': ({'description': f'copy {j}'} if t in ('zone', 'no_format') else {})})
+        picks = sorted({0, min(127, n - 1), min(128, n - 1), n - 1, r.randrange(n)})
+        sp['ops'].append({'op': 'group', 'name': 'G', 'attrs': {'object_list': [{'$ref': first + j} for j in picks]}})
+        if t == 'zone':
+            sp['ops'].append({'op': 'parameter', 'name': 'P', 'attrs': {'zones': [{'$ref': first + j} for j in picks], 'values': [float(j) for j in picks]}})
+        elif t == 'axis':
+            sp['ops'].append({'op': 'computation', 'name': 'C', 'attrs': {'axis': [{'$ref': first + j} for j in picks[:3]]}})
+        elif t == 'no_format':
+            for j in picks:
+                sp['ops'].append(gen.nf_data_op(first + j, b'payload of copy %d' % j))
         return sp
     if k == 'retry':
         from vf.checks import c20
@@ -448,6 +470,8 @@ def run_case(case, PROP):
         bump('file-header-given-as-object')
     if run.data is not None and any(l.get('fh_identifier') not in (None, '0') for l in sp.get('lfs', [])):
         bump('file-header-identifier-chosen')
+    if case['kind'] == 'same-named' and run.data is not None:
+        bump('copy-number>=128' if case['n'] > 128 else 'many-same-named-small')
     if case['kind'] == 'setnames' and run.data is not None:
         if any(o.get('set_name') == '' for o in sp['ops']):
             bump('empty-set-name')
@@ -520,6 +544,12 @@ def run_case(case, PROP):
                 if len(run.lfs) > 1:
                     bump('c09-multi-lf')
     vio = [v.as_dict() for v in run.by_prop(PROP)]
+    if PROP != 'C04' and run.stage_error is not None and not vio:
+        # nothing can be "present in the file" / "resolve" / "be in order" in a file that does not decode
+        e_ = run.stage_error[1]
+        vio.append({'prop': PROP, 'kind': 'file-undecodable', 'mech': 'undecodable:' + getattr(e_, 'kind', type(e_).__name__),
+                    'detail': f'the written file does not decode: {e_}'})
+        evals = max(evals, 1)
     if PROP == 'C04' and run.stage_error and run.stage_error[0] == 'semantic':
         evals = max(evals, 1)
     bump('codec-contract-evals', sum(v for kk, v in contracts.EVALS.items() if kk.startswith('codec:')))
